@@ -56,6 +56,12 @@ EXTRA = [   # nested / context-key-bound combinations that the Library kinds do 
      "float", "float", {"t_values"}),
     ({"processor": "VUndocSource", "derive": {"parameter_sweep": {"parameters": {"a": "t"}, "variables": {"t": {"values": [1.0]}}, "collection": "FloatDataCollection"}}},
      "none", "coll", {"t_values"}),
+    # a swept probe over TWO variables whose context key is the published key of the SECOND one; variables whose names differ by
+    # the "_values" suffix (gain / gain_values publish gain_values / gain_values_values)
+    ({"processor": "VPairProbe", "context_key": "u_values", "derive": {"parameter_sweep": {"parameters": {"a": "t + u"}, "variables": {"t": {"values": [1.0, 2.0]}, "u": {"values": [3.0]}}}}},
+     "float", "float", {"t_values", "u_values"}),
+    ({"processor": "VPairSource", "derive": {"parameter_sweep": {"parameters": {"a": "gain + gain_values"}, "variables": {"gain": {"values": [1.0]}, "gain_values": {"values": [2.0, 3.0]}},
+                                                                  "collection": "FloatDataCollection"}}}, "none", "coll", {"gain_values", "gain_values_values"}),
     # data types nested in another class (qualified name 'VLab.Reading'): plain, sliced and swept components
     ({"processor": "VReadingSource"}, "none", "reading", set()),
     ({"processor": "VReadingSink"}, "reading", "reading", set()),
